@@ -15,7 +15,8 @@ func main() {
 			"of the methods, 4 concurrent calls on one client; handlers record (nonce, seq, method, Meta, AdditionalFields); per call an oracle checks exactly-once / order / intact / " +
 			"before-return / result and the trace is diffed with the model (calls below 48 KiB payload). A raw reference peer (WHATWG reader) reads the same streams: ids pairwise distinct, " +
 			"frames = notifications then answer, both diffed with the model (writer-object fact). The real client's reader is also run against a scripted peer (frames after the answer, foreign ids, " +
-			"undecodable frames). NotificationParams marshal/unmarshal/NewNotification vs the model on generated values. Non-trivial = at least one notification handled / on the stream.",
+			"undecodable frames). Handler registration HISTORIES on one client (register, re-register a registered method with another tagged handler instance, unregister, register again) " +
+			"interleaved with batches of calls: which instance received each notification vs last-registration-wins and vs the model's tableAfter. NotificationParams marshal/unmarshal/NewNotification vs the model on generated values. Non-trivial = at least one notification handled / on the stream.",
 		Run: run})
 }
 
@@ -68,6 +69,14 @@ func run(c *hk.Ctx) {
 			runEnv(c, cfg, pr.name, pr.methods, pr.unregister, mkPlans(n, 200), conc)
 		}
 	}
+	// registration histories interleaved with calls
+	nHist := 60
+	if th {
+		nHist = 400
+	}
+	runHistory(c, hk.SrvCfg{Mode: "stateful", Get: true, PostSSE: true}, nHist, "h")
+	runHistory(c, hk.SrvCfg{Mode: "stateless", Get: false, PostSSE: true}, nHist, "i")
+	runHistory(c, hk.SrvCfg{Mode: "stateful", Get: false, PostSSE: false}, nHist/4, "j")
 	// raw peers: many short bursts without pauses (several events within one millisecond) and some long ones
 	for _, cfg := range []hk.SrvCfg{{Mode: "stateful", Get: true, PostSSE: true}, {Mode: "stateless", Get: false, PostSSE: true}, {Mode: "stateful", Get: false, PostSSE: false}} {
 		n := perRaw
